@@ -235,6 +235,7 @@ def run(prog, chk):
     chk.ob("R2.is-active", "Transport.is_active", rets == ["self.active"], ia.loc, "returns %s" % rets)
     _handlers_before_teardown_total(prog, chk, run_f)
     _no_lock_left_held(prog, chk)
+    _deadlines_are_loop_invariant(prog, chk)
 
 
 def _handlers_before_teardown_total(prog, chk, run_f):
@@ -315,3 +316,38 @@ def _no_lock_left_held(prog, chk):
             detail = "%s still held at the exit(s) reached from %s" % (leaks, sorted(set(where)))
         chk.ob("R4.no-exit-leaves-a-lock-held", f.qual, not leaks, f.loc, detail)
     chk.floor("R4", "functions with explicit acquire()", n, 40)
+
+
+def _deadlines_are_loop_invariant(prog, chk):
+    """R5: a polling loop that gives up after a timeout compares time.time() with <start> + <limit>; the reference point
+    must be taken once, before the loop.  Re-taking it inside the loop makes the deadline recede for ever and the
+    raising arm unreachable: the call blocks as long as the transport stays formally active."""
+    from ..core.cfg import assigned_names
+    n = 0
+    for f in sorted(prog.all_functions(), key=lambda f: f.qual):
+        if f.module.name not in ("transport", "channel", "packet", "client", "auth_handler", "buffered_pipe", "sftp_client", "sftp_file", "agent", "proxy"):
+            continue
+        for lp in [x for x in walk_no_defs(f.node) if isinstance(x, ast.While)]:
+            for cmp_ in [x for x in walk_no_defs(lp) if isinstance(x, ast.Compare) and len(x.ops) == 1]:
+                sides = [cmp_.left, cmp_.comparators[0]]
+                tt = [s for s in sides if any(M.is_call(c, name="time.time") for c in ast.walk(s))]
+                if len(tt) != 1:
+                    continue
+                other = sides[1] if sides[0] is tt[0] else sides[0]
+                refs = [x.id for x in ast.walk(other) if isinstance(x, ast.Name)] + [x.id for x in ast.walk(tt[0]) if isinstance(x, ast.Name)]
+                refs = [r for r in refs if r not in ("time",)]
+                if not refs:
+                    continue
+                inside = set()
+                for s in walk_no_defs(lp):
+                    if isinstance(s, ast.Assign):
+                        for t in s.targets:
+                            for x in ast.walk(t):
+                                if isinstance(x, ast.Name):
+                                    inside.add((x.id, unparse(s.value)))
+                moved = [(r, v) for (r, v) in inside if r in refs and "time.time()" in v]
+                n += 1
+                chk.ob("R5.deadline-reference-taken-before-the-loop", "%s:%s" % (f.qual, unparse(cmp_)[:50]), not moved, "%s:%d" % (f.module.path, cmp_.lineno),
+                       "`%s`: reference %s %s" % (unparse(cmp_)[:70], refs, "is taken outside the loop" if not moved else
+                                                  "is re-taken inside the loop (%s = %s): the deadline never arrives" % moved[0]))
+    chk.floor("R5", "timeout comparisons in polling loops", n, 4)
